@@ -112,6 +112,20 @@ func (x *Exec) checkFile(rec *StepRecord, pi int, g *proto.GenScript, o genOutco
 	if f.Name.Name != p.Name {
 		x.violate("C01", "F3", "wrong-package-name", fmt.Sprintf("%s: package %s, want %s", rel, f.Name.Name, p.Name), nil)
 	}
+	for _, cg := range f.Comments {
+		for _, cm := range cg.List {
+			if t := strings.TrimPrefix(cm.Text, "// NAMEOF "); t != cm.Text {
+				if k := strings.Index(t, " = "); k > 0 {
+					if x.nameForms[t[:k]] == nil {
+						x.nameForms[t[:k]] = map[string]string{}
+					}
+					if _, ok := x.nameForms[t[:k]][t[k+3:]]; !ok {
+						x.nameForms[t[:k]][t[k+3:]] = rel
+					}
+				}
+			}
+		}
+	}
 	// F5 / F6: fixed points of gofmt and gofumpt
 	if out, err := format.Source(data); err != nil || !bytes.Equal(out, data) {
 		x.violate("C01", "F5", "not-gofmt-fixed-point", rel, nil)
